@@ -4,7 +4,9 @@
 //! to interface `<iface>` lives at `<dir>/<iface>/<pid>-<n>.sock`; a transmitted `can_frame` (the
 //! very 16-byte buffer built by `CANSocket::send`) is delivered to every *other* socket of that
 //! directory, like raw CAN loopback to the other sockets of the host. Per-peer delivery errors
-//! (full queue, stale socket file) drop the frame for that peer only.
+//! (full queue, stale socket file) drop the frame for that peer only, after a short bounded retry.
+//! With `GLONAX_VERIF_BUS_LOOPBACK=0` sockets of the same process do not hear each other (the three
+//! clones of a network service then only receive what other processes / the harness put on the bus).
 use std::collections::HashMap;
 use std::os::unix::prelude::*;
 use std::path::PathBuf;
@@ -50,12 +52,35 @@ pub(crate) fn send(fd: RawFd, socket: &socket2::Socket, buf: &[u8]) -> Option<st
             if peer == own || peer.extension().map(|e| e != "sock").unwrap_or(true) {
                 continue;
             }
+            if !loopback() && same_process(&peer) {
+                continue;
+            }
             if let Ok(addr) = socket2::SockAddr::unix(&peer) {
-                let _ = socket.send_to(buf, &addr);
+                // a reader that is momentarily behind gets a few chances before the frame is dropped for it
+                for _ in 0..200 {
+                    match socket.send_to(buf, &addr) {
+                        Err(e) if e.kind() == std::io::ErrorKind::WouldBlock => {
+                            std::thread::sleep(std::time::Duration::from_micros(50))
+                        }
+                        _ => break,
+                    }
+                }
             }
         }
     }
     Some(Ok(buf.len()))
+}
+
+fn loopback() -> bool {
+    std::env::var("GLONAX_VERIF_BUS_LOOPBACK").map(|v| v != "0").unwrap_or(true)
+}
+
+fn same_process(peer: &std::path::Path) -> bool {
+    let prefix = format!("{}-", std::process::id());
+    peer.file_name()
+        .and_then(|n| n.to_str())
+        .map(|n| n.starts_with(&prefix))
+        .unwrap_or(false)
 }
 
 /// Forget a socket and remove its file.
